@@ -131,6 +131,33 @@ func runDirect(c *mc.Ctx) {
 			c.Inc("distinct_nontrivial")
 		}
 	}
+	if !c.Thorough() {
+		return
+	}
+	// two-step chains: the judged application starts from a state reached through the library
+	quickContacts := cf.Contacts(false)
+	for pi, pre := range cf.PreModifiers() {
+		for ci := range quickContacts {
+			idx++
+			if !c.Mine(idx) {
+				continue
+			}
+			if c.Expired() {
+				c.Cap(fmt.Sprintf("time budget reached in the two-step chains (first modifier %d)", pi))
+				return
+			}
+			for mi := range mods {
+				d := &cf.Direct{Contact: quickContacts[ci], Modifier: mods[mi], MaxField: 640, Pre: pre}
+				c.Inc("evaluations")
+				c.Inc("chained_applications")
+				c.Inc("transitions")
+				c.Inc("states")
+				for _, p := range judgeDirect(c, w, d, true) {
+					c.Violation("chain:"+p.Key, p.What+"\ncontact: "+mc.JSON(d.Contact)+"\nfirst modifier: "+mc.JSON(pre)+"\nmodifier: "+mc.JSON(d.Modifier), map[string]any{"space": "direct", "case": d})
+				}
+			}
+		}
+	}
 }
 
 func run(c *mc.Ctx) {
